@@ -374,7 +374,8 @@ def run_g(prog, res, floor=3, units=("hash.c",)):
     between - the walk would continue in whatever list E is, and the rest of the chain is never visited (a resize
     that relinks cells this way drops every entry but the first of each bucket).  Saving the link first
     (`next = sexp_cdr(ls); ...; ls = next`) and inserting behind the cursor (`sexp_cdr(ls) = cons(x, sexp_cdr(ls))`)
-    are the accepted forms."""
+    are the accepted forms, and so is appending a freshly made cell and stepping onto it
+    (`sexp_cdr(tail) = sexp_cons(...); tail = sexp_cdr(tail)`)."""
     from cfg import elem_positions, enclosing_elem, reach_without
     stat = res.stat("C15.g", "hash-table chain walks that advance through a field of the current cell: no store to that field of the "
                     "cursor reaches the advance", floor=floor)
@@ -414,8 +415,9 @@ def run_g(prog, res, floor=3, units=("hash.c",)):
                     advances.append((i, key))
             else:
                 key = field_of_var(fn, l)
-                if key is not None and not reads_field(fn, nd["c"][1], key):
-                    stores.append((i, key))
+                r0 = fn.strip(nd["c"][1])
+                if key is not None and not reads_field(fn, nd["c"][1], key) and fn.nodes[r0]["k"] != "call":
+                    stores.append((i, key))      # (a call result is a fresh cell: append-at-the-tail, then step onto it)
         if not advances:
             continue
         pos = elem_positions(fn)
